@@ -10,7 +10,7 @@ from ..core import Ctx
 from ..index import AnalysisError
 from ..ring import Rat, reset_relations
 from ..symt import InterpError, STensor, Unsupported, to_rat
-from ..tae import STObj
+from ..tae import STObj, ClassVal as tae_ClassVal
 from .gridsym import fresh_facts, rotation
 from .t1_grid import _guard, apply, as_h, compose, make_interp, teq, tstr
 from .t11_expv import identity_coords
@@ -186,6 +186,57 @@ def run_flow(ctx: Ctx) -> None:
                 return True, ""
             _guard(ctx, "T10x.warp", f"D={D}:{a}", FFm["warp_image"], f"D={D} axes={a}", th_warp)
     run_flow_sample(ctx)
+
+
+def run_default_axes(ctx: Ctx) -> None:
+    """Flow fields constructed without `axes`: the vectors are in the cube units of the grid's own align_corners convention."""
+    prog = ctx.prog
+    FF = prog.cls("deepali.data.flow", "FlowFields")
+    F1 = prog.cls("deepali.data.flow", "FlowField")
+    IM = prog.cls("deepali.data.image", "Image")
+    Grid = prog.cls("deepali.core.grid", "Grid")
+    Axes = prog.cls("deepali.core.grid", "Axes")
+    f1 = prog.find_method(F1, "__init__")
+    ctx.fn(f1)
+    ctx.fn(prog.find_method(FF, "__init__"))
+    ctx.rule("T10x.default-axes", "FlowFields(data, grid), FlowField(data, grid), FlowField.from_image(image) and FlowFields.from_images-style "
+                                  "construction without `axes` label the vectors CUBE_CORNERS on a grid with align_corners=True and CUBE on a "
+                                  "grid with align_corners=False (documented default: the grid's own convention), so that axes(WORLD) applies the "
+                                  "grid's own cube -> world vector map; sub-items and batches keep the label")
+    for D, shape in ((2, (2, 3)), (3, (2, 2, 3))):
+        for ac in (True, False):
+            def th(D=D, shape=shape, ac=ac):
+                reset_relations()
+                facts = fresh_facts()
+                it = make_interp(ctx)
+                s = [Rat.atom(f"s{i}") for i in range(D)]
+                for x in s:
+                    facts.declare_positive(x)
+                g = it.new(Grid, size=tuple(reversed(shape)), spacing=STensor.from_flat(s, [D]), direction=rotation(D, "g"), align_corners=ac)
+                want = it.enum(Axes, "CUBE_CORNERS" if ac else "CUBE")
+                data = STensor.symbols("U", [D] + list(shape))
+                objs = {
+                    "FlowField(data, grid)": it.new(F1, data.clone(), g),
+                    "FlowFields(data, grid)": it.new(FF, data.unsqueeze(0).clone(), g),
+                    "FlowField.from_image(image)": it.method(tae_ClassVal(F1), "from_image", it.new(IM, data.clone(), g)),
+                }
+                objs["FlowField(data, grid).batch()"] = it.method(objs["FlowField(data, grid)"], "batch")
+                objs["FlowFields(data, grid)[0]"] = it.method(objs["FlowFields(data, grid)"], "__getitem__", 0)
+                for what, f in objs.items():
+                    got = it.method(f, "axes")
+                    if got != want:
+                        return False, f"{what} on a grid with align_corners={ac} is labelled {got}, expected {want}"
+                    w = it.method(f, "axes", it.enum(Axes, "WORLD")).plain()
+                    M = ref_vmap(it, g, "CUBE_CORNERS" if ac else "CUBE", "WORLD")
+                    src = f.plain()
+                    src = src if src.ndim == D + 2 else src.unsqueeze(0)
+                    w = w if w.ndim == D + 2 else w.unsqueeze(0)
+                    v = src[0].permute(list(range(1, D + 1)) + [0]).unsqueeze(-1)
+                    ref = symt.matmul(M, v).squeeze(-1).permute([D] + list(range(D)))
+                    if not teq(w[0], ref):
+                        return False, f"{what}: axes(WORLD) is not the grid's own cube -> world vector map applied to the given vectors"
+                return True, ""
+            _guard(ctx, "T10x.default-axes", f"D={D}:align_corners={ac}", f1, f"default axes D={D} grid align_corners={ac}", th)
 
 
 def run_flow_sample(ctx: Ctx) -> None:
